@@ -41,8 +41,10 @@ type script struct {
 	flush    bool
 	hijack   bool
 	hijacked string
-	pre101   bool // call WriteHeader(101) before hijacking, as protocol switches may do
-	plainTop bool // the top-level writer supports neither Hijack nor Flush
+	pre101   bool        // call WriteHeader(101) before hijacking, as protocol switches may do
+	pre200   bool        // call WriteHeader(200) before hijacking, as a CONNECT tunnel does
+	trailers [][2]string // set after the body under http.TrailerPrefix
+	plainTop bool        // the top-level writer supports neither Hijack nor Flush
 }
 
 type outcome struct {
@@ -75,6 +77,8 @@ func (s *script) handler(o *outcome) http.Handler {
 			if s.pre101 && !s.plainTop {
 				w.Header().Set("Upgrade", "verif")
 				w.WriteHeader(http.StatusSwitchingProtocols)
+			} else if s.pre200 && !s.plainTop {
+				w.WriteHeader(http.StatusOK)
 			}
 			conn, _, err := hj.Hijack()
 			if err != nil {
@@ -106,6 +110,9 @@ func (s *script) handler(o *outcome) http.Handler {
 				}
 			}
 		}
+		for _, kv := range s.trailers {
+			w.Header().Add(http.TrailerPrefix+kv[0], kv[1])
+		}
 	})
 }
 
@@ -115,6 +122,7 @@ func genScript(t *rapid.T) *script {
 		s.hijack = true
 		s.hijacked = "HTTP/1.1 101 Switching\r\n\r\n" + rapid.StringMatching(`[a-z]{0,20}`).Draw(t, "raw")
 		s.pre101 = rapid.Bool().Draw(t, "pre101")
+		s.pre200 = !s.pre101 && rapid.Bool().Draw(t, "pre200")
 		s.plainTop = rapid.IntRange(0, 2).Draw(t, "plainTop") == 0
 		return s
 	}
@@ -131,6 +139,11 @@ func genScript(t *rapid.T) *script {
 		}
 	}
 	s.flush = rapid.Bool().Draw(t, "flush")
+	if len(s.writes) > 0 && rapid.IntRange(0, 3).Draw(t, "trailers") == 0 {
+		for i := rapid.IntRange(1, 2).Draw(t, "ntrailers"); i > 0; i-- {
+			s.trailers = append(s.trailers, [2]string{rapid.SampledFrom([]string{"X-Checksum", "Grpc-Status", "Server-Timing"}).Draw(t, "tn"), rapid.StringMatching(`[a-z0-9]{1,8}`).Draw(t, "tv")})
+		}
+	}
 	return s
 }
 
@@ -139,7 +152,7 @@ func (s *script) String() string {
 	for _, w := range s.writes {
 		n += len(w)
 	}
-	return fmt.Sprintf("{info:%d status:%d headers:%v body:%dB/%dwrites flush:%v hijack:%v pre101:%v}", s.info, s.status, s.headers, n, len(s.writes), s.flush, s.hijack, s.pre101)
+	return fmt.Sprintf("{info:%d status:%d headers:%v body:%dB/%dwrites flush:%v hijack:%v pre101:%v pre200:%v trailers:%v}", s.info, s.status, s.headers, n, len(s.writes), s.flush, s.hijack, s.pre101, s.pre200, s.trailers)
 }
 
 var layerKinds = []string{"stream", "trace", "connlimit", "ratelimit", "cbreaker", "roundrobin", "roundrobin+sticky", "rebalancer", "buffer"}
@@ -367,9 +380,29 @@ func TestC20_Transparent(t *testing.T) {
 			if rec1.Status() != rec0.Status() {
 				t.Fatalf("client got status %d through the stack, the bare handler gives %d\n%s", rec1.Status(), rec0.Status(), desc)
 			}
-			h0 := sim.HeaderMultiset(rec0.SentHeader())
+			trailersOf := func(h http.Header) []string {
+				var out []string
+				for _, l := range sim.HeaderMultiset(h) {
+					if strings.HasPrefix(l, http.TrailerPrefix) {
+						out = append(out, l)
+					}
+				}
+				return out
+			}
+			if t0, t1 := trailersOf(rec0.Header()), trailersOf(rec1.Header()); !sim.SameStrings(t0, t1) {
+				t.Fatalf("after the exchange the client's response carries the trailers %q, the bare handler gives %q\n%s", t1, t0, desc)
+			}
+			var h0 []string
+			for _, l := range sim.HeaderMultiset(rec0.SentHeader()) {
+				if !strings.HasPrefix(l, http.TrailerPrefix) {
+					h0 = append(h0, l)
+				}
+			}
 			var h1 []string
 			for _, l := range sim.HeaderMultiset(rec1.SentHeader()) {
+				if strings.HasPrefix(l, http.TrailerPrefix) {
+					continue // trailers are compared on their own (a buffering layer knows them before the head goes out)
+				}
 				if strings.HasPrefix(l, "Set-Cookie: sid=") {
 					continue // the sticky session's documented addition
 				}
@@ -416,6 +449,12 @@ func TestC20_Transparent(t *testing.T) {
 		}
 		if s.info != 0 {
 			cl = append(cl, "informational-1xx")
+		}
+		if len(s.trailers) > 0 {
+			cl = append(cl, "trailers")
+		}
+		if hijack && s.pre200 {
+			cl = append(cl, "hijack-after-200")
 		}
 		if hasBuffer {
 			cl = append(cl, "buffer-in-stack")
